@@ -13,10 +13,17 @@ that survives floating point (strictness is demanded: the sample is NOT inside),
 rounding-level tie (either outcome accepted) - so the oracle is set-valued where, and only
 where, double precision cannot decide.
 
+Integer-typed records: the array variant is also run on the int64 array, and `calc_sig_dur` (Arias
+default and the `calc_cav` callable) on an AccSignal built from the int64 array (every word) and from
+a Python list of ints (words one level below the bound) - same record, same acceptance sets.
+
 Relations (tree edges and metamorphic pairs): amplitude scaling by 2, -2, 3; prepending k zeros
 (start and end shift by k*dt); nesting of fraction intervals; bracketed duration against the
-exact exceedance set for six thresholds, its monotonicity in the threshold and the joint
-scaling of record and threshold.  The relations that need extra executions (scaling, zero
+exact exceedance set for seven thresholds (0, a tiny positive one, five around the sample
+magnitudes), its monotonicity in the threshold and the joint scaling of record and threshold - by
+2, -2, 3 and, for every word and both se, by the factors 0.125 and 0.1 that bring the whole record
+below 0.05 g (threshold 0 stays 0: the smallest allowed threshold on data where it selects something
+no fixed positive level selects).  The relations that need extra executions (scaling, zero
 prefix, joint scaling) are run for the words one level below the length bound (case['rel']);
 nesting and threshold monotonicity use the base executions and are checked for every word.
 
@@ -49,7 +56,12 @@ NEST = tuple((p, q) for p, (i, j) in enumerate(PAIRS) for q, (i2, j2) in enumera
              if i2 <= i and j2 >= j and p != q)
 POW2 = (False, True, True, True, False, False)       # fraction is a power of two
 DYAD = (False, True, True, True, True, False)        # fraction is exact in binary
-THRESHOLDS = (0.0, 0.5, 1.0, 1.5, 2.0, 2.5)
+THRESHOLDS = (0.0, 1e-12, 0.5, 1.0, 1.5, 2.0, 2.5)
+# joint scaling of record and threshold by factors < 1 (bracketed duration only, every word, both se):
+# 0.125 is exact in binary; 0.1 is not, but fl(c*|x|) == fl(c*th) whenever |x| == th, so exact ties
+# stay exact ties of the scaled pair.  Peak of the scaled records: 0.25 resp. 0.2 m/s2 (< 0.05 g).
+BRAC_SMALL = (0.125, 0.1)
+INT_MEASURES = ('arias', 'cav')   # calc_sig_dur variants that read the record's own dtype
 SCALES = (2.0, -2.0, 3.0)
 ZEROS = (1, 2, 3)
 MEASURES = ('array', 'arias', 'cav', 'stair')
@@ -75,18 +87,25 @@ def build(tier, seed):
         'cases': cases,
         'rule': 'all non-zero words over {-2..2} of length 2..%d (one pool case per word) x dt in %s x all %d ordered '
                 'fraction pairs from %s x se in {T,F} x measure in {array sum of squares (float64 and int64 record), '
-                'Arias default, user callable calc_cav, user staircase}; bracketed duration x thresholds %s x se; '
+                'Arias default, user callable calc_cav, user staircase}; Arias default and calc_cav also on an AccSignal '
+                'holding the int64 record (all words, se=T) and built from a Python list of ints (length <= %d, se=T); '
+                'bracketed duration x thresholds %s x se, and x joint scaling of record and threshold by %s for every '
+                'word and both se; '
                 'relations (scaling %s, %s prepended zeros, joint scaling) for words of length <= %d, nesting and '
                 'threshold monotonicity for all; non-trivial = every enumerated word (none is identically zero)'
-                % (L, list(DTS), len(PAIRS), list(FRACS), list(THRESHOLDS), list(SCALES), list(ZEROS), L_rel),
+                % (L, list(DTS), len(PAIRS), list(FRACS), L_rel, list(THRESHOLDS), list(BRAC_SMALL), list(SCALES),
+                   list(ZEROS), L_rel),
         'bounds': {'alphabet': SIGMA, 'max_len': L, 'max_len_relations': L_rel, 'dt': DTS, 'fractions': FRACS,
-                   'thresholds': THRESHOLDS, 'scales': SCALES, 'prepended_zeros': ZEROS, 'measures': MEASURES},
+                   'thresholds': THRESHOLDS, 'scales': SCALES, 'prepended_zeros': ZEROS, 'measures': MEASURES,
+                   'bracketed_joint_scales_all_words': BRAC_SMALL, 'integer_record_measures': INT_MEASURES,
+                   'integer_record_containers': ['int64 ndarray (all words)', 'list of Python ints (relation words)']},
         'required_classes': ['decided', 'exact-tie', 'rounding-tie', 'exact-tie-lower', 'exact-tie-upper',
                              'precondition-false', 'precondition-false-raises', 'se-true', 'se-false',
                              'start-eq-end', 'start-lt-end', 'user-measure-differs-from-arias',
                              'scaling', 'zero-prefix-shift', 'zero-prefix-definition', 'nesting',
                              'brac-some-exceed', 'brac-none-exceeds', 'brac-exact-tie', 'brac-monotone',
-                             'brac-joint-scaling', 'int-input'],
+                             'brac-joint-scaling', 'int-input', 'int-record-i64', 'int-record-list',
+                             'brac-tiny-threshold', 'brac-zero-threshold-below-0.05g', 'brac-monotone-scaled'],
         'assumptions': [
             'sample values outside {-2..2}, lengths above the bound, dt / fractions / thresholds outside the menus '
             'are not examined',
@@ -105,6 +124,11 @@ def build(tier, seed):
             'prefixed record is checked against the crossing definition instead (counted under '
             'disabled_transitions)',
             'bracketed duration with no exceedance: 0 for se=False, (None, None) for se=True',
+            'an AccSignal built from an integer-typed container (int64 array, list of Python ints) holds the same '
+            'record as the one built from the float array: same acceptance sets, same claims',
+            'joint scaling by 0.125 / 0.1: the expected exceedance set is that of the integer word with the unscaled '
+            'threshold (exact); the scaled sample and the scaled threshold are the same double whenever |a| equals '
+            'the threshold, so strictness at exact ties is demanded as for the unscaled pair',
         ],
     }
 
@@ -301,6 +325,14 @@ def run_case(case):
         if not ok:
             continue
         tol = TT * dt * max(n - 1, 1)
+        # the same record held with an integer dtype: int64 array, list of Python ints
+        int_sigs = []
+        for tag, make in (('i64', lambda: a_i.copy()), ('list', lambda: [int(x) for x in w])):
+            if tag == 'list' and not with_rel:
+                continue
+            ok, sg = r.call('construct', {'w': w, 'dt': dt, 'container': tag}, eqsig.AccSignal, make(), dt)
+            if ok:
+                int_sigs.append((tag, sg))
         # ------------------------------------------------------------ significant duration
         for m in MEASURES:
             accs = acc_by[(m, dy)]
@@ -346,6 +378,15 @@ def run_case(case):
                     ok, out = guarded(r, claim_t, subf, mode, cnt, call_impl, m, a_i, None, dt, s, e, True)
                     if ok and mode != 'none':
                         check_pair(r, claim_t, subf, out, acc, dt, n)
+                if m in INT_MEASURES:
+                    for tag, sg in int_sigs:
+                        r.states += 1
+                        cnt['int-record-' + tag] += 1
+                        subf = lambda: {'w': w, 'dt': dt, 'measure': m + '-' + tag, 'start': FRACS[i],  # noqa
+                                        'end': FRACS[j], 'se': True}
+                        ok, out = guarded(r, claim_t, subf, mode, cnt, call_impl, m, None, sg, dt, s, e, True)
+                        if ok and mode != 'none':
+                            check_pair(r, claim_t, subf, out, acc, dt, n)
             cnt['se-true'] += len(PAIRS)
             cnt['se-false'] += len(PAIRS)
             if m == 'array':
@@ -426,14 +467,24 @@ def run_case(case):
                         if ok:
                             check_pair(r, claim, subf, out, acc, dt, n + k)
         # ------------------------------------------------------------ bracketed duration
-        durs = []
+        small = []
+        for c in BRAC_SMALL:
+            ok, sg = r.call('construct', {'w': w, 'dt': dt, 'scale': c}, eqsig.AccSignal, c * a_f, dt)
+            if ok:
+                small.append((c, sg))
+        durs = {}
         for th in THRESHOLDS:
             idx = im_ref.exceed_indices(w, Fraction(th))
             if any(abs(x) == th for x in w):
                 cnt['brac-exact-tie'] += 1
+            if 0.0 < th < 1e-6:
+                cnt['brac-tiny-threshold'] += 1
             cnt['brac-some-exceed' if idx else 'brac-none-exceeds'] += 1
-            for c, sg in [(1.0, sig)] + scaled:
-                for se in ((True, False) if c == 1.0 else (True,)):
+            for c, sg in [(1.0, sig)] + scaled + small:
+                both = c == 1.0 or c in BRAC_SMALL
+                if th == 0.0 and c in BRAC_SMALL and idx:
+                    cnt['brac-zero-threshold-below-0.05g'] += 1     # peak of the scaled record <= 0.25 m/s2
+                for se in ((True, False) if both else (True,)):
                     sub = {'w': w, 'dt': dt, 'threshold': th, 'se': se}
                     if c == 1.0:
                         r.states += 1
@@ -462,14 +513,18 @@ def run_case(case):
                         r.expect(claim, sub, d is not None and abs(d - want) <= tol,
                                  'duration is not the time between the first and last exceeding samples',
                                  observed=out, expected=want)
-                        durs.append((th, d))
-        for (t1, d1), (t2, d2) in zip(durs, durs[1:]):
-            if d1 is None or d2 is None:
-                continue
-            r.transitions += 1
-            cnt['brac-monotone'] += 1
-            r.expect('brac.monotone', {'w': w, 'dt': dt, 'thresholds': [t1, t2]}, d2 <= d1 + tol,
-                     'bracketed duration increases with the threshold', observed=[d1, d2])
+                        durs.setdefault(c, []).append((th, d))
+        for c, lst in durs.items():
+            for (t1, d1), (t2, d2) in zip(lst, lst[1:]):
+                if d1 is None or d2 is None:
+                    continue
+                r.transitions += 1
+                cnt['brac-monotone' if c == 1.0 else 'brac-monotone-scaled'] += 1
+                sub = {'w': w, 'dt': dt, 'thresholds': [t1, t2]}
+                if c != 1.0:
+                    sub['scale'] = c        # record c*w, thresholds c*t1 <= c*t2
+                r.expect('brac.monotone', sub, d2 <= d1 + tol,
+                         'bracketed duration increases with the threshold', observed=[d1, d2])
     return r
 
 
@@ -486,7 +541,10 @@ def snippet(case, v):
             "prs = [(sub['start'], sub['end'])] if 'start' in sub else [sub['narrow'], sub['wide']] if 'wide' in sub else []\n"
             "for f0, f1 in prs:\n"
             "    f0, f1, se, m = float(f0), float(f1), sub.get('se', True), sub['measure']\n"
-            "    if m == 'array-i64': a = a.astype(np.int64)\n"
+            "    m, _, cont = m.partition('-')\n"
+            "    if cont == 'i64': a = a.astype(np.int64)\n"
+            "    if cont == 'list': a = [int(x) for x in a]\n"
+            "    if cont: s = eqsig.AccSignal(a, sub['dt'])\n"
             "    if m.startswith('array'): print(f0, f1, im.calc_sig_dur_vals(a, sub['dt'], start=f0, end=f1, se=se))\n"
             "    else: print(f0, f1, im.calc_sig_dur(s, start=f0, end=f1, se=se, im={'arias': None, 'cav': im.calc_cav, 'stair': stair}[m]))\n"
             % (sub,))
